@@ -286,13 +286,17 @@ Fixpoint run_each (fuel : nat) (w : rw) (is : list nat) (ts : list thread) (tr :
   | i :: rest => let '(w', ts', tr') := run_alone fuel w i ts tr in run_each fuel w' rest ts' tr'
   end.
 
-Definition run_policy (w : rw) (ts : list thread) (k : nat) : rw * list thread * list ev :=
-  let others := seq 1 (List.length ts - 1) in
-  let '(w1, ts1, tr1) := run_alone k w 0 ts [] in
-  let '(w2, ts2, tr2) := run_each 64 w1 others ts1 tr1 in
-  let '(w3, ts3, tr3) := run_alone 64 w2 0 ts2 tr2 in
-  let '(w4, ts4, tr4) := run_each 64 w3 others ts3 tr3 in
-  (w4, ts4, rev tr4).
+(* the policy of the harness: phase 1: thread i runs [nth i ks] steps (64 = to
+   completion), in index order; phase 2: every thread runs to completion, in index order *)
+Fixpoint run_phase1 (w : rw) (i : nat) (ks : list nat) (ts : list thread) (tr : list ev) : rw * list thread * list ev :=
+  match ks with
+  | [] => (w, ts, tr)
+  | k :: rest => let '(w', ts', tr') := run_alone k w i ts tr in run_phase1 w' (S i) rest ts' tr'
+  end.
+Definition run_policy (w : rw) (ts : list thread) (ks : list nat) : rw * list thread * list ev :=
+  let '(w1, ts1, tr1) := run_phase1 w 0 ks ts [] in
+  let '(w2, ts2, tr2) := run_each 64 w1 (seq 0 (List.length ts)) ts1 tr1 in
+  (w2, ts2, rev tr2).
 
 Definition mk_threads (ops : list (rop * option nat)) : list thread :=
   map (fun p => mkTh (prog_of (fst p)) 0 (snd p)) ops.
@@ -412,7 +416,7 @@ Definition verdict (w : rw) (tr : list ev) : bool :=
 Record case := mkCase {
   c_init : rw;
   c_ops : list (rop * option nat);      (* operation, index of its faultable step that fails *)
-  c_pause : nat;                        (* thread 0 runs that many steps first *)
+  c_pauses : list nat;                  (* phase 1: thread i runs that many steps (64 = all) *)
   c_obs_calls : list (list (rcall * bool));   (* observed steps per operation *)
   c_obs_results : list bool;            (* operation returned without error *)
   c_obs_final : rw                      (* snapshot at quiescence (held = []) *)
@@ -471,7 +475,7 @@ Definition calls_of (tr : list ev) (tid : nat) : list (rcall * bool) :=
   map (fun e => (ev_call e, ev_ok e)) (filter (fun e => Nat.eqb (ev_tid e) tid) tr).
 
 Definition model_run (c : case) : rw * list thread * list ev :=
-  run_policy (c_init c) (mk_threads (c_ops c)) (c_pause c).
+  run_policy (c_init c) (mk_threads (c_ops c)) (c_pauses c).
 
 Definition agree (c : case) : bool :=
   let '(w, ts, tr) := model_run c in
